@@ -13,7 +13,18 @@
 //!     of the same class (grids with holes, closed solids, several components, with rotated / reversed face storage),
 //!     and on the outputs of `Mesh::create_box` / `Mesh::create_cylinder`; every face list with an edge in three
 //!     faces must be refused by `calc_edges`.  Inputs outside that class (vertex-only contacts, inconsistent
-//!     winding) are NOT enumerated: the unchanged code does not terminate / is order dependent there (DESIGN D7, D8).
+//!     winding) are NOT given to `calc_edges` / `get_patch_boundary_points`: the unchanged code does not terminate /
+//!     panics there (DESIGN D7);
+//! (d) edge lengths of `calc_edges` against |v1 - v0| of the stored vertices to RELATIVE 1e-12 on grids, boxes and
+//!     cylinders of pitch 5e-6 .. 1 placed at (0,0,0), (1500,-2000,350), (-1536,2048,352), (123456.789,-98765.4321,5000.5)
+//!     and (-0.001,0.002,1e6);
+//! (e) `get_patches` on ANY face list - every ordered list of <= 2 faces over 5 vertices (64 calls each), every ordered
+//!     3-face list starting with [0,1,2] or [0,2,1] (8 calls each), and box / cylinder / 3x3 grid / cut strip /
+//!     tetrahedron / a vertex-only contact with no face, each single face, pairs of faces, every other face and all
+//!     faces flipped (64 calls each; std's RandomState gives every call its own start face): every face in exactly one
+//!     patch and every patch edge-connected, for every input; maximal connectivity only where no directed edge occurs
+//!     in two faces (with a flipped face the unchanged code's answer depends on the start face, DESIGN D8);
+//! (f) `chained_indices` on 1..=12 separate simple chains / closed loops of 1..=9 links in 4 storage orders.
 use super::{close, Report};
 use crate::geom3::{Mesh, Point3};
 use std::collections::HashSet;
@@ -739,7 +750,7 @@ fn run_many_chains(r: &mut Report, p: &Progress) {
 }
 
 pub fn run() -> Option<Report> {
-    let mut r = Report::new("chained_indices: every list of <= 4 pairs over vertex ids 0..5 (406901 lists); clusters_from_sparse: every subset of a 2x2x2 block, a 3x3x1 slab and a 2x2x3 block of voxels (4864 sets, each twice); Mesh::calc_edges / get_patches / get_patch_boundary_points: every ordered list of <= 3 faces over 5 vertices that is consistently wound and free of vertex-only contacts, 11 larger hand-built meshes of that class in 6 storage variants each, create_box (4 sizes) and create_cylinder (steps 3..=16, 2 sizes), repeated 2-3 times per mesh for hash order; every <= 3 face list with an edge in three faces must be refused; each group under a progress watchdog (6 s per input). Vertex-only contacts and inconsistent winding are excluded (D7, D8)");
+    let mut r = Report::new("chained_indices: every list of <= 4 pairs over vertex ids 0..5 (406901 lists); clusters_from_sparse: every subset of a 2x2x2 block, a 3x3x1 slab and a 2x2x3 block of voxels (4864 sets, each twice); Mesh::calc_edges / get_patches / get_patch_boundary_points: every ordered list of <= 3 faces over 5 vertices that is consistently wound and free of vertex-only contacts, 11 larger hand-built meshes of that class in 6 storage variants each, create_box (4 sizes) and create_cylinder (steps 3..=16, 2 sizes), repeated 2-3 times per mesh for hash order; every <= 3 face list with an edge in three faces must be refused; each group under a progress watchdog (6 s per input). Vertex-only contacts and inconsistent winding are excluded for calc_edges / patch boundaries (D7). Edge lengths to relative 1e-12 on grids (1x1, 4x3, 12x9), boxes and 12-step cylinders of pitch 5e-6 .. 1 at 5 offsets up to 1e6 from the origin. get_patches on ANY face list (partition and edge-connected patches always, maximality when no directed edge occurs twice): all lists of <= 2 faces over 5 vertices x 64 calls, 3-face lists starting with [0,1,2] / [0,2,1] x 8 calls, box / cylinder / grid / strip / tetrahedron with single faces, pairs, every other and all faces flipped x 64 calls. chained_indices on 1..12 separate chains / closed loops of 1..9 links in 4 storage orders");
     guarded(&mut r, "chaining", "pairs (flattened)", run_chains);
     guarded(&mut r, "voxels", "voxels (flattened x,y,z)", run_voxels);
     guarded(&mut r, "mesh", "faces (flattened)", run_small_meshes);
